@@ -10,6 +10,7 @@ import Heathcliff.Proofs.C19K
   Helper lemmas: Proofs/C19.lean.
 -/
 import Heathcliff.Proofs.C19
+import Heathcliff.Proofs.GenAppLwe2
 namespace HC.C19
 open HC Finset
 
@@ -220,5 +221,67 @@ theorem fieldTrace_noisy_nonvacuous : type_of% @HC.fieldTrace_noisy_nonvacuous :
 /-- NON-VACUITY of the L2 hypotheses: on the same concrete world (N = 2, q = 13, P = 17), two coefficient-form leaves, one merge
     layer (L = 1, Galois element 3, the genuine key `c19k_exKey`), BFV: `pack_noisy` applies, so the model's pack succeeds. -/
 theorem pack_noisy_nonvacuous : type_of% @HC.pack_noisy_nonvacuous := @HC.pack_noisy_nonvacuous
+
+/-! ### translator tie (phase 4h, app mode): index / loop arithmetic of src/app/lwe.rs, REGENERATED on every run (`Gen/AppFns.lean`,
+    fragments of `extract_lwe`, `pack_lwe_ciphertexts`, `field_trace_inplace`; evaluator calls are opaque steps recorded in a plan) -/
+
+/-- `extract_lwe`: the generated `let shift = if term == 0 {0} else {poly_modulus_degree * 2 - term}` is the shift computation of the
+    model's `extractLwe` (checked subtraction included: `term > 2N` traps in both) -/
+theorem gen_lwe_extract_shift_eq : type_of% @HC.ga_lwe_extract_shift_eq := @HC.ga_lwe_extract_shift_eq
+
+/-- ... composed with `extract_identity`'s exponent: for an index inside the polynomial the shift is the exponent `s < 2N` with
+    `s + term ≡ 0 (mod 2N)`, i.e. the monomial `X^(2N − term)` = `X^(−term)` -/
+theorem gen_lwe_extract_shift_spec (term n : Nat) (ht : term < n) (hn : n * 2 < 2^64) :
+    ∃ s, GenApp.lwe_extract_shift term n = .ok s ∧ s < 2 * n ∧ (s + term) % (2 * n) = 0 := by
+  rw [HC.ga_lwe_extract_shift_eq term n hn]
+  by_cases h : term = 0
+  · subst h; exact ⟨0, by simp [pure, Except.pure], by omega, by simp⟩
+  · refine ⟨n * 2 - term, by rw [if_neg h, HC.ga_ckSub (by omega)], by omega, ?_⟩
+    rw [show n * 2 - term + term = 2 * n by omega]; exact Nat.mod_self _
+
+/-- `pack_lwe_ciphertexts`: the generated `let mut l = 0; while (1<<l) < lwes_count { l += 1; }` = `packLog` (at most 2^63 inputs; the
+    code admits at most N.  Above 2^63 the code would reach `1 << 64`: a trap, where the model's `packLog` returns 64) -/
+theorem gen_lwe_pack_log_eq : type_of% @HC.ga_lwe_pack_log_eq := @HC.ga_lwe_pack_log_eq
+
+/-- ... composed with `packLog_is_ceil_log2`: the GENERATED loop returns ⌈log2 count⌉ -/
+theorem gen_lwe_pack_log_is_ceil_log2 (count : Nat) (hc : count ≤ 2^63) :
+    ∃ l, GenApp.lwe_pack_log count = .ok l ∧ count ≤ 2^l ∧ ∀ l', count ≤ 2^l' → l ≤ l' :=
+  ⟨packLog count, HC.ga_lwe_pack_log_eq count hc, (packLog_is_ceil_log2 count).1, (packLog_is_ceil_log2 count).2⟩
+
+/-- `field_trace_inplace`: with the key-level degree `2^k`, the generated loop performs `apply_galois(·, g)` + `add_inplace` exactly for
+    `g = 2^(k−i) + 1`, `i = 0, …, k − logn − 1`, in this order (the loop structure of the model's `fieldTracePoly`) -/
+theorem gen_lwe_field_trace_plan_eq : type_of% @HC.ga_lwe_field_trace_plan_eq := @HC.ga_lwe_field_trace_plan_eq
+
+/-- ... composed with `field_trace_coeffs`: running the phase-level layer `a ↦ a + σ_g(a)` over the plan the GENERATED loop produces
+    leaves `(N/2^l)·a_j` on the multiples of `N/2^l` and 0 elsewhere (any commutative ring) -/
+theorem gen_lwe_field_trace_coeffs {R : Type} [CommRing R] (k l : Nat) (hl : l ≤ k) (hk : k ≤ 62) (a : Array R) (j : Nat) (hj : j < 2^k) :
+    ∃ plan, GenApp.lwe_field_trace_plan l (2^k) = .ok plan ∧
+      (plan.foldl (fun a g => addPoly (2^k) a (sigmaPoly (2^k) a g)) a).getD j 0 =
+        if (2^k / 2^l) ∣ j then ((2^k / 2^l : Nat) : R) * a.getD j 0 else 0 := by
+  refine ⟨_, HC.ga_lwe_field_trace_plan_eq k l hk (by omega), ?_⟩
+  rw [← HC.ga_fieldTracePoly_plan]
+  exact field_trace_coeffs k l hl a j hj
+
+/-- `pack_lwe_ciphertexts`, leaf loop (skeleton reading: `assemble_lwe` + `divide_by_poly_modulus_degree_inplace` into slot `i` is recorded as
+    the input index, the zero ciphertext as `count`): slot `i < 2^l` receives input `brev l i` iff that index exists.  Uses the second
+    generated copy of `reverse_bits_u64`. -/
+theorem gen_lwe_pack_leaves_eq : type_of% @HC.ga_lwe_pack_leaves_eq := @HC.ga_lwe_pack_leaves_eq
+/-- ... and the model's `packLeaves` reads its inputs through exactly this plan -/
+theorem gen_lwe_pack_leaves_model : type_of% @HC.ga_packLeaves_plan := @HC.ga_packLeaves_plan
+
+/-- `pack_lwe_ciphertexts`, merge layers (skeleton reading: per butterfly the plan records odd slot, shift, even slot, Galois element; the
+    `unsafe` pointer arithmetic `rlwes.as_mut_ptr().add(offset [+ gap])` is read as the slot index): layers `0 … l−1`, butterflies on the slots
+    `q·2^(layer+1)` / `+ 2^layer`, shift `N >> (layer+1)`, element `2^(layer+1) + 1`; independent of `ntt_form` -/
+theorem gen_lwe_pack_merge_plan_eq : type_of% @HC.ga_lwe_pack_merge_plan_eq := @HC.ga_lwe_pack_merge_plan_eq
+/-- ... and the model's `packLayer` performs exactly that butterfly at the even slot of every plan entry -/
+theorem gen_lwe_pack_merge_model : type_of% @HC.ga_packLayer_plan := @HC.ga_packLayer_plan
+
+/-! non-vacuity of the ties: the generated fragments run -/
+example : GenApp.lwe_pack_leaves 2 3 = .ok [0, 2, 1, 3] := by rfl
+example : GenApp.lwe_pack_merge_plan 2 8 false = .ok [1, 4, 0, 3, 3, 4, 2, 3, 2, 2, 0, 5] := by rfl
+example : GenApp.lwe_pack_log 5 = .ok 3 := by rfl
+example : GenApp.lwe_field_trace_plan 1 8 = .ok [9, 5] := by rfl
+example : GenApp.lwe_extract_shift 3 8 = .ok 13 := by rfl
+example := gen_lwe_field_trace_coeffs (R := ℤ) 3 1 (by decide) (by decide) #[1, 2, 3, 4, 5, 6, 7, 8] 4 (by decide)
 
 end HC.C19
